@@ -565,6 +565,37 @@ EQ_RAW_REVIEWED = {
 }
 
 
+def _on_non_array_arm(node):
+    """is the comparison evaluated only where an `isinstance(<operand>, Array)` test
+    failed: the else-arm of a conditional expression or statement, or after an
+    `if isinstance(x, Array): return ...` in the same block (however wrapped)"""
+    def is_array_test(t):
+        return any(isinstance(x, ast.Call) and ast.unparse(x.func) == "isinstance"
+                   and len(x.args) == 2 and "Array" in ast.unparse(x.args[1])
+                   for x in ast.walk(t))
+    ch, par = node, getattr(node, "_parent", None)
+    while par is not None and not isinstance(par, (ast.FunctionDef, ast.Lambda)):
+        if isinstance(par, ast.IfExp) and is_array_test(par.test) and (
+                ch is par.orelse or ch is par.body and isinstance(par.test, ast.UnaryOp)):
+            return True
+        if isinstance(par, ast.If) and is_array_test(par.test):
+            neg = isinstance(par.test, ast.UnaryOp) and isinstance(par.test.op, ast.Not)
+            if (any(ch is x for x in par.orelse) and not neg) or (
+                    any(ch is x for x in par.body) and neg):
+                return True
+        for fld in ("body", "orelse"):
+            blk = getattr(par, fld, None)
+            if isinstance(blk, list) and any(ch is x for x in blk):
+                i = next(k for k, x in enumerate(blk) if x is ch)
+                for prev in blk[:i]:
+                    if isinstance(prev, ast.If) and is_array_test(prev.test) \
+                            and not isinstance(prev.test, ast.UnaryOp) and prev.body \
+                            and isinstance(prev.body[-1], (ast.Return, ast.Raise)):
+                        return True
+        ch, par = par, getattr(par, "_parent", None)
+    return False
+
+
 def r_eq_memo(c):
     """array-valued components are compared through the memoised self.rec"""
     m = c.model
@@ -592,8 +623,7 @@ def r_eq_memo(c):
                             ast.unparse(m.fields(k)[path[0]][0]):
                         continue
                     # guarded element-wise fallback  `a == b` under isinstance test
-                    par = getattr(node, "_parent", None)
-                    if isinstance(par, ast.IfExp) and "isinstance" in ast.unparse(par.test):
+                    if _on_non_array_arm(node):
                         continue
                     raw = node
             inst = f"{short(k)}.{'.'.join(path)}"
